@@ -188,6 +188,13 @@ def obligations():
                     and l2n[1][2] == ("setitem", nlv, ("binop", "Mult", fx.C(2), nlv))
                     and ev.index(ac[0]) < ev.index(l2n[0]) and d[1] == ((fx.C(0), fx.C(0)),))
         ob("tree: _add_child(leaf2node[leaf], split), then leaf2node[leaf] = 2*n_leaves-1 and leaf2node[n_leaves] = 2*n_leaves", ok_t)
+        # the rule stored in the tree is the rule that partitioned the samples: between the search and _add_child the split object
+        # is only read (no method called on it, nothing stored into it), so Tree.predict routes with the (feature, threshold) fit used
+        touched = [fx.show(e[6])[:80] for e in calls if isinstance(e[6], tuple) and e[6][:1] == ("attr",) and e[6][1] == bs]
+        touched += [fx.show(e[2])[:80] for e in ev if e[0] == "mutate" and e[1] == bs]
+        touched += [e[2] for e in ev if e[0] == "store" and len(e) > 4 and e[1] == bs]
+        ob("the split handed to the tree is the split returned by the search, untouched (the stored rule is the rule that partitioned the samples)", not touched,
+           {"calls / writes on the split object": touched})
         # enqueue sites
         rm = [e for e in calls if _on(e, queue) == "remove"]
         ob("the split leaf leaves the queue", len(rm) == 1 and rm[0][3] == (leaf,))
